@@ -23,7 +23,9 @@ CODES = {'US': 91, 'UK': 92}
 
 
 def _aorb(x, y):
-  return (_item(x), _item(y))
+  # a one-shot generator per row (rows repeat: every row gets its own)
+  yield _item(x)
+  yield _item(y)
 
 
 def _item(x):
@@ -41,9 +43,11 @@ def _key_a(x):
 
 def build(h, arrays):
   from ml_metrics._src.chainables import transform
-  p = transform.TreeTransform.new().aggregate(fn=lib.CollectRows(), input_keys='b', output_keys='o1', disable_slicing=bool(h['dis1']))
+  # both spellings of the builder calls: aggregate / add_aggregate and their documented aliases agg / add_agg
+  first = transform.TreeTransform.new().agg if arrays else transform.TreeTransform.new().aggregate
+  p = first(fn=lib.CollectRows(), input_keys='b', output_keys='o1', disable_slicing=bool(h['dis1']))
   if h['agg2']:
-    p = p.add_aggregate(fn=lib.CollectRows(), input_keys=('a', 'b'), output_keys='o2')
+    p = (p.add_agg if arrays else p.add_aggregate)(fn=lib.CollectRows(), input_keys=('a', 'b'), output_keys='o2')
   names = {}
   for sl in sorted(h['slicers']):
     if sl == 'a':
@@ -93,6 +97,9 @@ def replay(chk, h):
   modes = [False, True]
   if not h['agg2'] and set(h['slicers']) <= {'a', 'a_in1', 'c_inUS', 'a_rep'}:
     modes.append('2d')
+    if 'a_rep' not in h['slicers']:
+      # 'ragged': the aggregated column is a python list of rows of different lengths, [b] * (1 + b % 3) (retrieval-style inputs)
+      modes.append('ragged')
   for arrays in modes:
     batches = []
     for bt in h['stream']:
@@ -102,18 +109,21 @@ def replay(chk, h):
       if arrays == '2d':
         batches.append({'a': np.array(a), 'b': np.array([[v, v + 100] for v in b]), 'c': np.array(c)})
         continue
+      if arrays == 'ragged':
+        batches.append({'a': a, 'b': [[v] * (1 + v % 3) for v in b], 'c': c})
+        continue
       batches.append({'a': np.array(a), 'b': np.array(b), 'c': np.array(c)} if arrays else {'a': a, 'b': b, 'c': c})
     ctx = dict(kind='slicing', history=dict(stream=h['stream'], slicers=sorted(h['slicers']), agg2=h['agg2'], dis1=h['dis1']), arrays=arrays)
-    cfg = f"slicers={sorted(h['slicers'])} agg2={h['agg2']} dis1={h['dis1']} batches={[[(r['a'], r['b']) for r in bt] for bt in h['stream']]} {'numpy-2d-column' if arrays == '2d' else 'numpy' if arrays else 'lists'}"
+    cfg = f"slicers={sorted(h['slicers'])} agg2={h['agg2']} dis1={h['dis1']} batches={[[(r['a'], r['b']) for r in bt] for bt in h['stream']]} {'numpy-2d-column' if arrays == '2d' else 'ragged-list-column' if arrays == 'ragged' else 'numpy' if arrays else 'lists'}"
     kinds = '+'.join(sorted(h['slicers'])) or 'none'
     try:
-      p, names = build(h, arrays)
+      p, names = build(h, False if arrays == 'ragged' else arrays)
       it = p.make().iterate(batches)
       for _ in it:
         pass
       res = it.agg_result
     except Exception as e:  # pylint: disable=broad-exception-caught
-      chk.violation(f'exception:{type(e).__name__}:{kinds}', f'[{cfg}] {e!r}', ctx)
+      chk.violation(f'exception:{type(e).__name__}:{kinds}' + (':ragged-list-column' if arrays == 'ragged' else ''), f'[{cfg}] {e!r}', ctx)
       continue
     # the call interface (runner(input_iterator=...)) reports the same aggregate as iteration does
     try:
@@ -156,12 +166,14 @@ def replay(chk, h):
     if arrays == '2d':
       # a row (b,) is (b, b + 100); a replaced row (0,) is (0, 0)   (b is never 0 in Slicing.tla)
       want = {k: [((r[0], r[0] + 100) if r[0] else (0, 0)) for r in v] for k, v in want.items()}
+    if arrays == 'ragged':
+      want = {k: [tuple([r[0]] * (1 + r[0] % 3)) for r in v] for k, v in want.items()}
     if not h['stream']:
       # an empty stream has no aggregate result at all
       if got and any(v for v in got.values()):
         chk.violation(f'empty-stream:{kinds}', f'[{cfg}] result {got}', ctx)
       continue
-    if arrays != '2d' and h['stream'] and not h['dis1']:
+    if arrays not in ('2d', 'ragged') and h['stream'] and not h['dis1']:
       # a numeric aggregate state (running maximum of 3 - b: 0 and negative values occur), per slice
       try:
         pm = transform.TreeTransform.new().aggregate(fn=lib.RunningMax(), input_keys='b', output_keys='o1')
